@@ -320,10 +320,10 @@ PROPS = {
     ),
     "C18": dict(
         level="model_checking",
-        runs=[dict(harness="c18", variant="thr", shards=17, tag="explore", build=dict(extra_sources=["mc/sched.c"], extra_cflags=["-DC18_OWN_SCHED"])),
-              dict(harness="c18", variant="tsan", shards=17, tag="tsan-free-run")],
+        runs=[dict(harness="c18", variant="thr", shards=18, tag="explore", build=dict(extra_sources=["mc/sched.c"], extra_cflags=["-DC18_OWN_SCHED"])),
+              dict(harness="c18", variant="tsan", shards=18, tag="tsan-free-run")],
         deadline=dict(quick=400, thorough=3000),
-        rule="ENABLE_THREADING build; 17 harness configurations: (1) threads borrow main's reference (get;put / get;get;put;put), (2) one reference handed to each thread, main releases its own "
+        rule="ENABLE_THREADING build; 18 harness configurations: (1) threads borrow main's reference (get;put / get;get;put;put), (2) one reference handed to each thread, main releases its own "
              "without joining, (3) the same on an object owning a child with its own callback, (4) N threads racing on first use of the key hash (seed source returns -1 once, then distinct values), "
              "(5) threads on disjoint trees; every interleaving of the 2-3 real threads at shared-memory-access granularity with at most p preemptions (stateless DFS with prefix replay, one process "
              "per execution); oracle per schedule: destroyed exactly once, 'freed' reported exactly once, no access inside a freed block, equal hashes in all threads at all times, plus a "
@@ -353,25 +353,25 @@ for _pid in ("C01", "C02", "C03", "C10", "C12", "C13", "C14", "C16", "C20"):
 
 # Additions made after the seeded rounds 4-7 (DESIGN section 7 b4-b8), appended to the rule texts
 _EXTRA = {
- "C01": "; texts that are well-formed UTF-8 are also parsed with JSON_TOKENER_VALIDATE_UTF8 (same value); json_tokener_parse and json_tokener_parse_verbose are compared with parse_ex on every default-mode text",
+ "C01": "; texts that are well-formed UTF-8 are also parsed with JSON_TOKENER_VALIDATE_UTF8 (same value); json_tokener_parse and json_tokener_parse_verbose are compared with parse_ex on every default-mode text; every text also with JSON_TOKENER_ALLOW_TRAILING_CHARS added to its mode (same status, same value)",
  "C02": "; plus custom double formats (10 formats x 24 values x global / per thread / per node), literals and empty containers, 19 nodes brought to their value by setters or carrying user data, and json_object_get_string on every non-string tree",
- "C03": "; a call with length 0 in every explored parser state; NUL at every position of 14 small documents; scanners entered below the top level; documents with U+FEFF and other multi-byte characters",
- "C04": "; a call with length 0 in every explored state; NUL at every position of 14 small documents (comments, nesting); length -1 against the explicit length, negative lengths refused untouched; json_tokener_parse / parse_verbose status and value against parse_ex; after every distinct success state the probes run WITHOUT a reset (a parser that returned a value is ready for the next)",
+ "C03": "; a call with length 0 in every explored parser state; NUL at every position of 14 small documents; scanners entered below the top level; documents with U+FEFF and other multi-byte characters; 14 documents under depth limits 1..3; locale objects released and the thread's locale restored after every text",
+ "C04": "; a call with length 0 in every explored state; NUL at every position of 14 small documents (comments, nesting); length -1 against the explicit length, negative lengths refused untouched; json_tokener_parse / parse_verbose status and value against parse_ex; after every distinct success state the probes run WITHOUT a reset (a parser that returned a value is ready for the next); locale objects released and the thread's locale restored after every text, the refused lengths included",
  "C05": "; at the judged step every transfer operation is first attempted with its 1st and 2nd allocation failing (a failure changes nothing); array capacity is part of the merge key; scripts: 255..200000 references, 1000-child containers, and 8 node kinds x 3 ways of installing user data x (alone / in a container) under every value setter, serialization and a default deep copy (callback only at the last release)",
  "C06": "; every lookup entry point (get, get_ex with and without result, lookup_ex, lookup_entry, lookup_entry_w_hash) must agree; deletion of the current member also through json_c_visit; scale script: 1100 keys with churn under both hash functions, and with the global hash switched while the object is alive",
  "C07": "; 'put the element already there'; indices that only the allocator refuses (SIZE_MAX/8-1, 2^40+5), continuing from the post-refusal state; scale scripts to 1025 elements; the array_list API used directly with a counting release callback: every script of <= 5 (6) operations against a list model",
  "C08": "; every cleanly failed operation is retried with memory available and compared with the fault-free run; add_ex with constant keys across a table growth; replace-last-element of shrunk and parsed arrays",
  "C09": "; a brand-new owning source emptied member by member and destroyed before the copy is read again; removal mutations; nodes with retained text through new_double_s and through the public json_object_userdata_to_json_string idiom; custom serializer refused cleanly",
- "C10": "; every string also read from a node in separately allocated storage; json_parse_int64/uint64/double called directly; errno after get_double",
- "C11": "; serialization is an operation of the alphabet (the node keeps its print buffer); a 4th pattern shares a prefix ending in NUL with pattern 1; a length only the allocator refuses (2^29)",
+ "C10": "; every string also read from a node in separately allocated storage; json_parse_int64/uint64/double called directly; errno after get_double; leading whitespace of every kind strtoll accepts (\\v, \\f, \\r too) before signs",
+ "C11": "; serialization is an operation of the alphabet (the node keeps its print buffer); a 4th pattern shares a prefix ending in NUL with pattern 1; a length only the allocator refuses (2^29); every state serialized under 5 flag sets (PLAIN, COLOR, PRETTY|COLOR, NOSLASHESCAPE, SPACED|PRETTY_TAB)",
  "C12": "; pointers with '%' through getf/setf with the '%' doubled and with the last token as a %s argument; 100..300-byte names, 1024-byte paths, indices 2^32+k",
  "C13": "; every refusal also with patch_error == NULL; a NULL patch document; a 12-element array target and indices 2^32+k",
  "C14": "; six custom double formats (padded, signed, prefixed; per thread, global, per node) serialized under every locale installation",
- "C15": "; the 'reset parser behaves like a new one' probes run in every explored state at every small limit D",
+ "C15": "; the 'reset parser behaves like a new one' probes run in every explored state at every small limit D; large limits 100..10000 with nestings D-2..D+1; locale objects released and the thread's locale restored after every text",
  "C16": "; each mode also combined with JSON_TOKENER_VALIDATE_UTF8 (6 modes); every case on four tokener histories (fresh; reset; abandoned partial text + reset; failed text + reset); 12 kinds of trailing bytes incl. comments",
  "C17": "; the reserved second argument of json_c_visit rotates over {0, JSON_C_VISIT_SECOND, 1, -1}; chains of 31..1000 containers (built through the API and parsed) with CONTINUE everywhere and STOP at two positions",
- "C18": "; three more configurations: the global string hash switched away and back after first use; a different per-thread double format in each thread on disjoint trees; the random source answering the refused seed value three times in a row",
- "C19": "; start states with 0..65530 bytes already written (growth capped at 2.5x / 4x the start fill)",
+ "C18": "; four more configurations: the global string hash switched away and back after first use; a different per-thread double format in each thread on disjoint trees; the random source answering the refused seed value three times in a row; the empty key hashed first, then another key, then the empty key again",
+ "C19": "; start states with 0..65530 bytes already written (growth capped at 2.5x / 4x the start fill); the 5- and 129-byte formatted prints carry a NUL byte (%c with 0)",
  "C20": "; documents at the exact depth limit and limits 0, 1, 4, 40; flag sets with COLOR / NOZERO / NOSLASHESCAPE; json_object_to_file; multi-buffer documents to 70000 bytes; after every failure a message different from one planted before the call; open descriptors counted before the table is reset",
 }
 for _pid, _t in _EXTRA.items():
